@@ -104,7 +104,7 @@ def run_units(report, units, tier, rng, extra_after=None):
     for u in units:
         if any(g in bad_groups for g in u.groups):
             continue
-        fl = u.props + (u.thorough_props if tier == 'thorough' else []) + [fd['refuted'] for fd in u.findings]
+        fl = u.props + (u.thorough_props if tier == 'thorough' else []) + [fd['refuted'] for fd in u.findings if fd.get('refuted')]
         prop_files += fl
         targets += [f[:-2] + '.vo' for f in fl]
         targets += [f[:-2] + '.vo' for f in case_files.get(u.name, [])]
@@ -146,6 +146,21 @@ def run_units(report, units, tier, rng, extra_after=None):
                 reasons.append({'kind': 'correspondence', 'what': 'model vs implementation', 'detail': corr_disagree[u.name][:5]})
             known_ids = set(k['id'] for k in load_known(report.prop))
             for fd in u.findings:
+                if not fd.get('refuted'):
+                    # finding in code that is not modelled: identified by its replay on the real implementation only
+                    try:
+                        obs = fd['replay']()
+                    except Exception as ex:
+                        obs = None
+                        report.extra.setdefault('replay_errors', []).append('%s: %r' % (fd['id'], ex))
+                    if obs is not None and fd['id'] in known_ids:
+                        report.known.append('%s %s' % (fd['id'], fd['what']))
+                        report.samples.append({'known_finding': fd['id'], 'observed_on_real_code': obs})
+                    elif obs is not None:
+                        reasons.append({'kind': 'finding-not-listed', 'what': fd['id'], 'detail': obs})
+                    else:
+                        report.extra.setdefault('resolved_findings', []).append(fd['id'])
+                    continue
                 vo = fd['refuted'][:-2] + '.vo'
                 thms = H.theorems_in(fd['refuted'])
                 if vo in ok:
